@@ -474,6 +474,30 @@ pub fn generate(group: &str, r: &mut Rng, n: usize) -> Vec<Value> {
                 out.push(ev("qubo", format!("d-qubo-{k}"), json!({"inst": inst})));
             }
         }
+        "wire" => {
+            for k in 0..n {
+                let inst = rand_instance(r, &InstOpts { max_deg: 3, ..DEFAULT });
+                let st = inst.state(r, false);
+                match r.below(6) {
+                    0 => out.push(ev("wire_encode", format!("d-wire-{k}"), json!({"type":"Instance","wtype":"instance","msg":inst.json}))),
+                    1 => {
+                        let mut p = inst.json.clone();
+                        p["parameters"] = json!([{"id": 70, "name": ["w"], "subs": [3, -1], "params": [["a","b"]], "desc": ["d"]}]);
+                        out.push(ev("wire_encode", format!("d-wire-{k}"), json!({"type":"ParametricInstance","wtype":"parametricinstance","msg":p})));
+                    }
+                    2 => out.push(ev("wire_encode", format!("d-wire-{k}"), json!({"type":"State","wtype":"state","msg":st_json(&st)}))),
+                    3 => out.push(ev("wire_encode", format!("d-wire-{k}"), json!({"type":"Solution","wtype":"solution","msg":{"inst":inst.json,"st":st_json(&st)}}))),
+                    4 => {
+                        let samples = json!([{"state":[st_json(&st)],"ids":[0, 3]}, {"state":[st_json(&inst.state(r, false))],"ids":[7]}]);
+                        out.push(ev("wire_encode", format!("d-wire-{k}"), json!({"type":"Samples","wtype":"samples","msg":samples})));
+                    }
+                    _ => {
+                        let g = FnGen { ids: vec![1, 2, 3, 5], coef_den: 4, coef_max: 8, max_terms: 6, max_deg: 4 };
+                        out.push(ev("wire_encode", format!("d-wire-{k}"), json!({"type":"Function","wtype":"function","msg":g.function(r, true)})));
+                    }
+                }
+            }
+        }
         "validate" => {
             for k in 0..n {
                 let mut inst = rand_instance(r, &InstOpts { max_deg: 3, ..DEFAULT });
